@@ -434,6 +434,12 @@ def check_C12(ctx):
             ctx.rep.violation({'kind': 'relation', 'relation': 'C12_domain_verdict_mode_independent', 'address': ah, 'tld_check': t,
                                'implementation': {str(m): ' '.join(res[m]) for m in range(4)},
                                'explanation': 'ASCII modes whose local-part scanner accepted report different domain verdict / class / flags'})
+        # basic rejections (theorem C12_basic_rejections_mode_independent): the same record in all four modes
+        if (len(a) == 0 or i < 0 or i == len(a) - 1 or i > 64) and len(set(tuple(res[m][:3]) for m in range(4))) > 1:
+            viol += 1
+            ctx.rep.violation({'kind': 'relation', 'relation': 'C12_basic_rejections_mode_independent', 'address': ah, 'tld_check': t,
+                               'implementation': {str(m): ' '.join(res[m]) for m in range(4)},
+                               'explanation': 'empty address / no AT / empty domain / local part over 64 bytes: the four modes must return the same code and flags'})
         # address-level inclusion (theorem C12_5321_addresses_included_in_822): a form flag from mode 5321 => the same record from mode 822
         if len(res[1]) >= 3 and '1' in res[1][2] and res[0][:3] != res[1][:3]:
             viol += 1
